@@ -56,6 +56,9 @@ def run(ctx):
         cases.append({"kind": "roundtrip", "obj": "fiber", "via": "dict", "tree": t, "depth": depth})
         cases.append({"kind": "roundtrip", "obj": "fiber", "via": "yaml", "tree": t, "depth": depth})
         cases.append({"kind": "roundtrip", "obj": "tensor", "via": "yaml", "tree": t, "depth": depth, "loader": rng.choice(["fromYAMLfile", "fromYAMLfile", "ctor"])})
+        if rng.random() < 0.4:
+            # a tensor built shapeless that is given its shape afterwards (larger than what its content suggests)
+            cases.append({"kind": "roundtrip", "obj": "tensor", "via": "yaml", "tree": t, "depth": depth, "loader": "fromYAMLfile", "lateshape": [rng.randint(5, 8) for _ in range(depth)]})
         d = rng.choice([5, 7])
         tn = rand_tree(rng, 4, depth, dflt=d, pz=0.3)
         for x in walk_leaves(tn):
